@@ -962,16 +962,31 @@ fn main() {
                         dimens.set_job_demand(d);
                     }
                     Arc::new(Single {
-                        places: vec![JPlace {
-                            location: Some(t["loc"].as_u64().unwrap() as usize),
-                            duration: num(&t["dur"]),
-                            times: match t.get("windows").and_then(|w| w.as_array()) {
-                                Some(windows) => {
-                                    windows.iter().map(|w| TimeSpan::Window(TimeWindow::new(num(&w[0]), num(&w[1])))).collect()
-                                }
-                                None => vec![TimeSpan::Window(TimeWindow::new(num(&t["tws"]), num(&t["twe"])))],
-                            },
-                        }],
+                        places: match t.get("alts").and_then(|a| a.as_array()) {
+                            Some(alts) => alts
+                                .iter()
+                                .map(|alt| JPlace {
+                                    location: Some(alt["loc"].as_u64().unwrap() as usize),
+                                    duration: num(&alt["dur"]),
+                                    times: alt["windows"]
+                                        .as_array()
+                                        .unwrap()
+                                        .iter()
+                                        .map(|w| TimeSpan::Window(TimeWindow::new(num(&w[0]), num(&w[1]))))
+                                        .collect(),
+                                })
+                                .collect(),
+                            None => vec![JPlace {
+                                location: Some(t["loc"].as_u64().unwrap() as usize),
+                                duration: num(&t["dur"]),
+                                times: match t.get("windows").and_then(|w| w.as_array()) {
+                                    Some(windows) => {
+                                        windows.iter().map(|w| TimeSpan::Window(TimeWindow::new(num(&w[0]), num(&w[1])))).collect()
+                                    }
+                                    None => vec![TimeSpan::Window(TimeWindow::new(num(&t["tws"]), num(&t["twe"])))],
+                                },
+                            }],
+                        },
                         dimens,
                     })
                 })
